@@ -589,3 +589,25 @@ def intern_exact(ck, F, rule="COVER-style"):
               "Styles::%s decides that a value is already interned with %s: values that differ (e.g. only in letter case) are merged "
               "into one table entry and one of them reads back as the other" % (name, loose[0][1] if loose else "no comparison at all"), f, l,
               sample={"lookup": name, "comparisons": sorted({q for _, q, _ in cmps})})
+
+
+def localized_number_guard(ck, F, rule="TABLE-io"):
+    """Cell::get_localized_text swaps the decimal point for the locale's decimal symbol: the guard that decides
+    whether to substitute reads that same symbol (`symbols.decimal`), not another table entry (fr groups with a
+    no-break space but still writes `,` for decimals)."""
+    b = ck.need(F.one, "Cell::get_localized_text")
+    SYM = "ironcalc_base::locale::NumbersSymbols"
+    reps = [(bi, t) for bi, t in b.calls() if (b.callee_q(t) or "").rsplit("::", 1)[-1] in ("replace", "replacen")]
+    ck.ob(rule, "get_localized_text|substitution", len(reps) >= 1, "no decimal-point substitution found in get_localized_text (anchor lost?)", b.file, b.line)
+    for bi, t in reps:
+        used = {x[2] for a in t["args"] for x in sources(b, a) if x[0] == "field" and x[1] == SYM}
+        guards = set()
+        for d in b.dominators_of(bi):
+            tt = b.term(d)
+            if tt["k"] == "switch" and tt["ty"] == "bool":
+                guards |= {x[2] for x in sources(b, tt["o"]) if x[0] == "field" and x[1] == SYM}
+        f, l = b.loc(bi)
+        ck.ob(rule, "get_localized_text|guard reads the substituted symbol", bool(used) and used <= guards and guards <= used,
+              "get_localized_text substitutes %s but decides whether to do so from %s: in a locale where the two disagree (fr) a "
+              "number is shown with `.` and typing it back makes it text" % (sorted(used), sorted(guards)), f, l,
+              sample={"substituted": sorted(used), "guard": sorted(guards)})
